@@ -663,7 +663,54 @@ func (ex *Exec) heapArr(s *State, root types.Type, path []int, suffix string, va
 }
 
 // loadLeaf reads a leaf (non-struct) location.
+// guardCheck: lock-coverage obligations (C29): fields listed in a `guarded`
+// clause may only be read under the mutex (read or write lock) and written
+// under its write lock.
+func (ex *Exec) guardCheck(s *State, base Term, root types.Type, path []int, write bool) {
+	if ex.con == nil || len(ex.con.Guards) == 0 || len(path) == 0 || ex.dry {
+		return
+	}
+	st, ok := root.Underlying().(*types.Struct)
+	if !ok {
+		return
+	}
+	fname := st.Field(path[0]).Name()
+	for _, g := range ex.con.Guards {
+		hit := false
+		for _, f := range g.Fields {
+			if f == fname {
+				hit = true
+			}
+		}
+		if !hit {
+			continue
+		}
+		mi := -1
+		for i := 0; i < st.NumFields(); i++ {
+			if st.Field(i).Name() == g.Mutex {
+				mi = i
+			}
+		}
+		if mi < 0 {
+			ex.fail("guarded: no mutex field %s in %s", g.Mutex, root)
+		}
+		cur, has := s.Ghost["lock:"+base.S+":"+fmt.Sprint([]int{mi})]
+		if !has {
+			cur = IntLit(0)
+		}
+		mode := "r"
+		goal := Or(Eq(cur, IntLit(1)), Eq(cur, IntLit(2)))
+		if write {
+			mode = "w"
+			goal = Eq(cur, IntLit(1))
+		}
+		ex.oblige(s, fmt.Sprintf("%s#lock.%s.%s", ex.key, fname, mode), "lock", ex.fn.Pos(), g.Tags, goal,
+			"access to "+fname+" must hold "+g.Mutex)
+	}
+}
+
 func (ex *Exec) loadLeaf(s *State, base Term, root types.Type, path []int, lt types.Type) Val {
+	ex.guardCheck(s, base, root, path, false)
 	so := sortOf(lt)
 	switch so {
 	case "SyncMap", "BytesBuf":
@@ -683,6 +730,9 @@ func (ex *Exec) loadLeaf(s *State, base Term, root types.Type, path []int, lt ty
 }
 
 func (ex *Exec) storeLeaf(s *State, base Term, root types.Type, path []int, lt types.Type, v Val) {
+	if !(strings.HasPrefix(base.S, "(+ A0 ") || base.S == "A0") {
+		ex.guardCheck(s, base, root, path, true)
+	}
 	so := sortOf(lt)
 	switch so {
 	case "SyncMap":
